@@ -290,7 +290,7 @@ def run(ctx):
         plan = ctx.pick([("fs", 10, [], 0, ["api"]), ("classes", 8, [], 0, ["api"])],
                         [("fs", 200, [], 0, ["api"]), ("sql", 100, [], 0, ["api"]), ("fs2", 80, [], 0, ["api"]),
                          ("classes", 200, [], 0, ["api"])])
-        crash = ctx.pick([("fs", 3, 6)], [("fs", 16, 20), ("classes", 12, 16), ("sql", 4, 8)])
+        crash = ctx.pick([("fs", 3, 6)], [("fs", 10, 12), ("classes", 8, 10), ("sql", 4, 6)])
     else:
         big = {"MaxOps": ctx.pick("2", "3"), "MaxId": ctx.pick("4", "5")}
         ctx.mc("PartRefs", "PartRefs.MCRead.cfg", workers=4, timeout=1500, subst=dict(big))
